@@ -27,6 +27,16 @@
 //!                             -> "Err" | "Ok:<canonical index>" (format in shared/c13_index.rs)
 //!   csiz | tbiz  hex table cuts          a CSI / tabix FILE (BGZF, the written file or the payload
 //!                             recompressed with block breaks anywhere), cut as a file -> the same
+//!   bamhf raw cuts hdr | bcfhf raw linetab nlines cuts hdr      raw BAM / BCF stream INCLUDING its header
+//!   bamhz file table cuts hdr | bcfhz file table linetab nlines cuts hdr   the same, BGZF-compressed
+//!                             -> "E:Err:<kind>" (read_header fails) | "<header text hex|H|=>:<n>:<stop>";
+//!                             linetab = header lines / line prefixes the real VCF header parser refuses
+//!   samth text rejected cuts hdr | vcfth text linetab nlines rejected cuts hdr   plain SAM / VCF text incl.
+//!   samthz file table rejected cuts hdr | vcfthz file table linetab nlines rejected cuts hdr   its header
+//!                             -> "E:Err:<kind>" | "<checksum of the header text|H>:<n>:<stop>"
+//!   cramb  prefix header body landmarks cuts   one CRAM data container, its body cut to j bytes (header
+//!                             rewritten with length j + fresh CRC32), read by compression_header / slices /
+//!                             decode_blocks -> "<ok|Err:k>/<external block counts|_>/<Eof|Err:k>"
 //! `cuts` is `all` (every offset 0..=len) or a comma list.  These kinds also carry the L3 verdict.
 //!
 //! Implementation-only oracle:
@@ -447,12 +457,13 @@ fn first_fail(fails: Vec<Fail>) -> Result<(), Fail> {
     // list only orders the report: whether a tag is tolerated is decided by bin/check from
     // known_findings.json (a repaired class that recurs is a new failure).  The detail lists
     // every class with its count.
-    const RECORDED: [&str; 5] = [
+    const RECORDED: [&str; 6] = [
         "bgzf-large-read-never-ends-without-eof-marker",
         "bcf-recordbuf-cut-inside-l-shared-clean-eof",
         "cram-truncated-eof-container-body-clean-eof",
         "text-truncated-final-line-accepted-fai",
         "text-truncated-final-line-accepted-",
+        "text-truncated-header-line-accepted-",
     ];
     if fails.is_empty() {
         return Ok(());
@@ -1428,6 +1439,507 @@ fn run_hdrcut(c: &Case) -> Obs {
 }
 
 // ---------------------------------------------------------------------------------------------
+// modelled: whole BAM / BCF files INCLUDING their header, raw and BGZF-compressed
+
+/// read_header + the lazy record loop on a raw stream (`Reader::from`) or a BGZF file
+/// (`Reader::new`): (header as the text writer prints it | how reading it failed, records read,
+/// how the whole read stopped)
+fn read_with_header(is_bam: bool, raw: bool, bytes: &[u8]) -> (Result<String, Stop>, usize, Stop) {
+    if raw {
+        return read_raw_with_header(is_bam, bytes);
+    }
+    let mut hdr: Result<String, Stop> = Err(Stop::Eof);
+    let mut n = 0;
+    let r = nv::guarded(AssertUnwindSafe(|| -> std::io::Result<()> {
+        if is_bam {
+            let mut r = bam::io::Reader::new(bytes);
+            let h = r.read_header()?;
+            let mut t = Vec::new();
+            sam::io::Writer::new(&mut t).write_header(&h)?;
+            hdr = Ok(hex(&t));
+            let mut rec = bam::Record::default();
+            while r.read_record(&mut rec)? != 0 {
+                n += 1;
+            }
+        } else {
+            let mut r = bcf::io::Reader::new(bytes);
+            let h = r.read_header()?;
+            let mut t = Vec::new();
+            vcf::io::Writer::new(&mut t).write_header(&h)?;
+            hdr = Ok(hex(&t));
+            let mut rec = bcf::Record::default();
+            while r.read_record(&mut rec)? != 0 {
+                n += 1;
+            }
+        }
+        Ok(())
+    }));
+    let stop = match r {
+        Outcome::Done(Ok(())) => Stop::Eof,
+        Outcome::Done(Err(e)) => Stop::Err(nv::errkind(&e)),
+        Outcome::Panicked(m) => Stop::Panic(m),
+    };
+    if hdr.is_err() {
+        hdr = Err(stop.clone());
+    }
+    (hdr, n, stop)
+}
+
+/// the VCF header parser as a table for the model of the BCF header reader: "<i>:<line hex>" for
+/// every line (every prefix of every line of the header text, the partial lines a truncated
+/// stream can deliver) that the real parser - Parser::parse_partial followed by
+/// StringMaps::insert_entry, as in bcf read_vcf_header - refuses after the i complete lines before
+/// it; and the number of lines of the text
+fn bcf_header_line_table(text: &[u8]) -> (String, usize) {
+    header_line_table(text, true)
+}
+
+fn header_line_table(text: &[u8], string_maps: bool) -> (String, usize) {
+    use vcf::header::{Parser, StringMaps};
+    let lines: Vec<&[u8]> = text.split(|&b| b == b'\n').collect();
+    let lines = &lines[..lines.len() - 1]; // the text ends with a line feed
+    let mut parts = Vec::new();
+    for i in 0..lines.len() {
+        for j in 1..=lines[i].len() {
+            let cand = &lines[i][..j];
+            let refused = nv::guarded(AssertUnwindSafe(|| {
+                let mut p = Parser::default();
+                let mut sm = StringMaps::default();
+                for l in &lines[..i] {
+                    let e = p.parse_partial(l).expect("written header line");
+                    if string_maps {
+                        sm.insert_entry(&e).expect("written header line");
+                    }
+                }
+                match p.parse_partial(cand) {
+                    Ok(e) => string_maps && sm.insert_entry(&e).is_err(),
+                    Err(_) => true,
+                }
+            }));
+            if !matches!(refused, Outcome::Done(false)) {
+                parts.push(format!("{i}:{}", hex(cand)));
+            }
+        }
+    }
+    (if parts.is_empty() { "_".to_string() } else { parts.join(";") }, lines.len())
+}
+
+/// kinds bamhf / bcfhf (raw stream) and bamhz / bcfhz (BGZF file): header + records, cut anywhere.
+///   bamhf raw cuts hdr | bcfhf raw linetab nlines cuts hdr
+///   bamhz file inflatetab cuts hdr | bcfhz file inflatetab linetab nlines cuts hdr
+/// obs per cut: "E:Err:<kind>" when read_header fails, else "<header text hex | H | =>:<n>:<stop>".
+/// Oracle: with n = number of bytes the record layer receives (the cut, or what the BGZF layer
+/// delivers): the header read fails iff n < hdr; a header returned is the written one; exactly the
+/// records wholly inside n are returned; a clean end only at a record boundary.
+fn run_hfile(c: &Case) -> Obs {
+    let is_bam = c.kind.starts_with("bam");
+    let z = c.kind.ends_with('z');
+    let fmt = if is_bam { "bam" } else { "bcf" };
+    let file = Arc::new(c.b(0));
+    let na = c.args.len();
+    let hdr = c.u(na - 1) as usize;
+    let cuts = parse_cuts(&c.args[na - 2], file.len());
+    let stream = if z { bgzf_stream(&file).0 } else { file.to_vec() };
+    let mut ends = Vec::new();
+    let mut at = hdr;
+    while at + if is_bam { 4 } else { 8 } <= stream.len() {
+        let a = u32::from_le_bytes(stream[at..at + 4].try_into().unwrap()) as usize;
+        at += if is_bam { 4 + a } else { 8 + a + u32::from_le_bytes(stream[at + 4..at + 8].try_into().unwrap()) as usize };
+        ends.push(at);
+    }
+    let (intact, n_intact, stop_intact) = read_with_header(is_bam, !z, &file);
+    let Ok(intact) = intact else {
+        return Obs::fail("-", &format!("{fmt}-intact-file-unreadable"), "header");
+    };
+    if n_intact != ends.len() || stop_intact != Stop::Eof {
+        return Obs::fail("-", &format!("{fmt}-intact-file-unreadable"), &format!("{n_intact} records then {}", stop_intact.text()));
+    }
+    let mut toks = Vec::new();
+    let mut fails = Vec::new();
+    let mut first: Option<String> = None;
+    let (mut some_items, mut some_err, mut some_hdr_err) = (false, false, false);
+    let res = sweep(&file, &cuts, move |p| (read_with_header(is_bam, !z, p), if z { let (s, b) = bgzf_stream(p); (s.len(), b) } else { (p.len(), Stop::Eof) }));
+    for (k, r) in res {
+        let Some(((h, nrec, stop), (n, bstop))) = r else {
+            toks.push("Hang".to_string());
+            fails.push(hang(fmt, k));
+            break;
+        };
+        if let Stop::Panic(m) = &stop {
+            toks.push("Panic".to_string());
+            fails.push((format!("panic-{fmt}"), format!("cut {k}: {m}")));
+            continue;
+        }
+        match h {
+            Err(e) => {
+                toks.push(format!("E:{}", e.text()));
+                some_hdr_err = true;
+                if n >= hdr {
+                    fails.push((format!("{fmt}-intact-file-unreadable"), format!("cut {k}: all {hdr} header bytes delivered ({n}), header read fails with {}", e.text())));
+                }
+            }
+            Ok(h) => {
+                let t = if is_bam { h.clone() } else { "H".to_string() };
+                let t = match &first {
+                    None => {
+                        first = Some(t.clone());
+                        t
+                    }
+                    Some(t0) if *t0 == t => "=".to_string(),
+                    Some(_) => t,
+                };
+                toks.push(format!("{t}:{nrec}:{}", stop.text()));
+                some_items |= nrec > 0;
+                some_err |= stop.is_err();
+                let whole = ends.iter().filter(|&&e| e <= n).count();
+                let at_boundary = n == hdr || ends.contains(&n);
+                if n < hdr {
+                    let what = if h != intact { "a different header" } else { "the written header" };
+                    fails.push((format!("{fmt}-truncated-header-text-accepted"), format!("cut {k}: {n} of {hdr} header bytes delivered, {what} is returned without error, then {nrec} records and {}", stop.text())));
+                } else if h != intact {
+                    fails.push((format!("{fmt}-truncation-altered-header"), format!("cut {k}: a different header")));
+                } else if nrec > whole {
+                    fails.push((format!("{fmt}-truncation-fabricated-record"), format!("cut {k}: {nrec} records, {whole} lie inside the delivered bytes")));
+                } else if nrec < whole {
+                    fails.push((format!("{fmt}-truncation-lost-record"), format!("cut {k}: {nrec} of {whole} complete records returned, then {}", stop.text())));
+                } else if bstop == Stop::Eof && !at_boundary && stop == Stop::Eof {
+                    let last = ends.iter().copied().filter(|&e| e <= n).max().unwrap_or(hdr);
+                    fails.push((mid_record_tag(fmt, "lazy", n - last), format!("cut {k}: the stream ends at {n}, {} bytes into a record, but the reader reports a clean end after {nrec} records", n - last)));
+                } else if bstop == Stop::Eof && at_boundary && stop != Stop::Eof {
+                    fails.push((format!("{fmt}-cut-at-record-boundary-not-eof"), format!("cut {k}: {nrec} items then {}", stop.text())));
+                }
+            }
+        }
+    }
+    Obs { obs: toks.join(" "), verdict: "ok".into(), nontrivial: some_items && some_err && some_hdr_err }.with_verdict(first_fail(fails))
+}
+
+// ---------------------------------------------------------------------------------------------
+// modelled: plain and bgzipped SAM / VCF text INCLUDING the header
+
+/// (length, Adler-32 halves) of a byte string: the short canonical form of a header text
+fn cks(bs: &[u8]) -> String {
+    let (mut a, mut b) = (1u32, 0u32);
+    for &x in bs {
+        a = (a + x as u32) % 65521;
+        b = (b + a) % 65521;
+    }
+    format!("{}.{a}.{b}", bs.len())
+}
+
+/// read_header + record_bufs of a plain (`z` false) or bgzipped text file: the header as the text
+/// writer prints it (or how reading it failed) and the records
+fn read_text_with_header(vcf_fmt: bool, z: bool, bytes: &[u8]) -> (Result<Vec<u8>, Stop>, ReadOut) {
+    let mut hdr: Result<Vec<u8>, Stop> = Err(Stop::Eof);
+    let out = collect(|hd, items| {
+        macro_rules! go {
+            ($reader:expr, $writer:path) => {{
+                let mut r = $reader;
+                let h = r.read_header()?;
+                *hd = true;
+                let mut t = Vec::new();
+                $writer(&mut t).write_header(&h)?;
+                hdr = Ok(t);
+                for rec in r.record_bufs(&h) {
+                    items.push(render(&rec?));
+                }
+                Ok(())
+            }};
+        }
+        match (vcf_fmt, z) {
+            (true, false) => go!(vcf::io::Reader::new(bytes), vcf::io::Writer::new),
+            (true, true) => go!(vcf::io::Reader::new(bgzf::io::Reader::new(bytes)), vcf::io::Writer::new),
+            (false, false) => go!(sam::io::Reader::new(bytes), sam::io::Writer::new),
+            (false, true) => go!(sam::io::Reader::new(bgzf::io::Reader::new(bytes)), sam::io::Writer::new),
+        }
+    });
+    if hdr.is_err() {
+        hdr = Err(out.stop.clone());
+    }
+    (hdr, out)
+}
+
+/// the partial record lines (given as byte strings) that the real record parser refuses when they
+/// arrive as a final line without line feed behind the intact header: "<line hex>:<1|2>;.."
+fn text_rejected_for(vcf_fmt: bool, text: &[u8], hdr: usize, partials: &[Vec<u8>]) -> String {
+    let mut parts = Vec::new();
+    for partial in partials {
+        let mut plain = text[..hdr].to_vec();
+        plain.extend_from_slice(partial);
+        let (_, out) = read_text_with_header(vcf_fmt, false, &plain);
+        match out.stop {
+            Stop::Err(ref kd) if kd == "UnexpectedEof" => parts.push(format!("{}:1", hex(partial))),
+            Stop::Err(_) => parts.push(format!("{}:2", hex(partial))),
+            _ => {}
+        }
+    }
+    if parts.is_empty() { "_".to_string() } else { parts.join(";") }
+}
+
+/// every non-empty strict prefix (and the whole line without its line feed) of every record line
+fn record_line_prefixes(text: &[u8], hdr: usize) -> Vec<Vec<u8>> {
+    let mut v: Vec<Vec<u8>> = Vec::new();
+    for line in text[hdr..].split(|&b| b == b'\n') {
+        for j in 1..=line.len() {
+            let c = line[..j].to_vec();
+            if !v.contains(&c) {
+                v.push(c);
+            }
+        }
+    }
+    v
+}
+
+/// the partial record lines a bgzipped file can deliver as a final line (clean BGZF end inside a
+/// record line), over the given cuts
+fn record_line_partials_z(file: &[u8], text: &[u8], hdr: usize, cuts: &[usize]) -> Vec<Vec<u8>> {
+    let mut v: Vec<Vec<u8>> = Vec::new();
+    for &k in cuts {
+        let (stream, stop) = bgzf_stream(&file[..k]);
+        if stop != Stop::Eof || stream.len() <= hdr || stream.len() >= text.len() || *stream.last().unwrap() == b'\n' {
+            continue;
+        }
+        let start = stream.iter().rposition(|&b| b == b'\n').map(|i| i + 1).unwrap_or(0).max(hdr);
+        let c = stream[start..].to_vec();
+        if !v.contains(&c) {
+            v.push(c);
+        }
+    }
+    v
+}
+
+/// the VCF header parser (text reader: Parser::parse_partial only) as a table, see
+/// bcf_header_line_table
+fn vcf_header_line_table(text: &[u8]) -> (String, usize) {
+    header_line_table(text, false)
+}
+
+/// kinds samth / vcfth (plain text) and samthz / vcfthz (bgzipped): header + records, cut anywhere.
+///   samth text rejected cuts hdr | vcfth text linetab nlines rejected cuts hdr
+///   samthz file inflatetab rejected cuts hdr | vcfthz file inflatetab linetab nlines rejected cuts hdr
+/// obs per cut: "E:Err:<kind>" when read_header fails, else "<header>:<n>:<stop>" with header =
+/// checksum of the header text (SAM) / "H" (VCF).
+/// Oracle, with n = number of bytes the text reader receives and s = how the byte source ends:
+/// beyond the header text the written header and the usual record-line rules; inside the header
+/// text a header returned without error must consist of complete written header lines (a header
+/// parsed from a partial last line is the class text-truncated-header-line-accepted-<fmt>), and no
+/// record may follow.
+fn run_thfile(c: &Case) -> Obs {
+    let vcf_fmt = c.kind.starts_with("vcf");
+    let z = c.kind.ends_with('z');
+    let fmt = match (vcf_fmt, z) {
+        (true, true) => "vcfgz",
+        (true, false) => "vcf",
+        (false, true) => "samgz",
+        (false, false) => "sam",
+    };
+    let hfmt = if vcf_fmt { "vcf" } else { "sam" };
+    let file = Arc::new(c.b(0));
+    let na = c.args.len();
+    let hdr = c.u(na - 1) as usize;
+    let cuts = parse_cuts(&c.args[na - 2], file.len());
+    let text = if z { bgzf_stream(&file).0 } else { file.to_vec() };
+    let (ih, intact) = read_text_with_header(vcf_fmt, z, &file);
+    let Ok(ih) = ih else {
+        return Obs::fail("-", &format!("{fmt}-intact-file-unreadable"), "header");
+    };
+    if intact.stop != Stop::Eof {
+        return Obs::fail("-", &format!("{fmt}-intact-file-unreadable"), &intact.stop.text());
+    }
+    // headers made of the first j complete header lines (what a cut at a line boundary may return)
+    let mut line_ends = vec![0usize];
+    for (i, &b) in text[..hdr].iter().enumerate() {
+        if b == b'\n' {
+            line_ends.push(i + 1);
+        }
+    }
+    let prefix_headers: Vec<Option<Vec<u8>>> = line_ends.iter().map(|&e| read_text_with_header(vcf_fmt, false, &text[..e]).0.ok()).collect();
+    let mut toks = Vec::new();
+    let mut fails = Vec::new();
+    let (mut some_items, mut some_err, mut some_hdr_cut) = (false, false, false);
+    let total = text.len();
+    let text2 = text.clone();
+    let res = sweep(&file, &cuts, move |p| (read_text_with_header(vcf_fmt, z, p), if z { let (s, b) = bgzf_stream(p); (s.len(), b) } else { (p.len(), Stop::Eof) }));
+    for (k, r) in res {
+        let Some(((h, out), (n, bstop))) = r else {
+            toks.push("Hang".to_string());
+            fails.push(hang(fmt, k));
+            break;
+        };
+        if let Stop::Panic(m) = &out.stop {
+            toks.push("Panic".to_string());
+            fails.push((format!("panic-{fmt}"), format!("cut {k}: {m}")));
+            continue;
+        }
+        some_items |= !out.items.is_empty();
+        some_err |= out.stop.is_err();
+        let stream = &text2[..n];
+        let mid_line = n > 0 && n < total && stream[n - 1] != b'\n';
+        match &h {
+            Err(e) => toks.push(format!("E:{}", e.text())),
+            Ok(t) => toks.push(format!("{}:{}:{}", if vcf_fmt { "H".to_string() } else { cks(t) }, out.items.len(), out.stop.text())),
+        }
+        if n > hdr || (n == total && bstop == Stop::Eof) {
+            // the whole header text and the first byte behind it (or the whole file) was delivered
+            match &h {
+                Err(e) => fails.push((format!("{fmt}-intact-header-unreadable"), format!("cut {k}: {n} bytes delivered, header text has {hdr}: {}", e.text()))),
+                Ok(t) if *t != ih => fails.push((format!("{fmt}-truncation-altered-header"), format!("cut {k}: a different header"))),
+                Ok(_) => {
+                    let spec = RecordSpec { fmt, orig: &intact.items, text: mid_line && bstop == Stop::Eof };
+                    if let Err(f) = check_prefix(&spec, k, &out) {
+                        fails.push(f);
+                        continue;
+                    }
+                    let whole = stream[hdr..].iter().filter(|&&b| b == b'\n').count();
+                    if out.items.len() < whole {
+                        fails.push((format!("{fmt}-truncation-lost-record"), format!("cut {k}: {} of {whole} complete lines returned, then {}", out.items.len(), out.stop.text())));
+                    }
+                }
+            }
+        } else {
+            some_hdr_cut = true;
+            if let Ok(t) = &h {
+                if !out.items.is_empty() {
+                    fails.push((format!("{fmt}-truncation-fabricated-record"), format!("cut {k}: {} records behind a header cut at {n} of {hdr}", out.items.len())));
+                } else if bstop != Stop::Eof {
+                    fails.push((format!("text-header-source-error-swallowed-{hfmt}"), format!("cut {k}: the byte source fails at {n} inside the header text, a header is returned")));
+                } else {
+                    // complete lines delivered: j; acceptable = the header of j lines, or of j + 1
+                    // lines when the partial last line is the whole line without its line feed
+                    let j = line_ends.iter().filter(|&&e| e <= n).count() - 1;
+                    let ok_j = prefix_headers[j].as_ref() == Some(t);
+                    let ok_j1 = mid_line && j + 1 < line_ends.len() && n + 1 == line_ends[j + 1] && prefix_headers[j + 1].as_ref() == Some(t);
+                    if !(ok_j && !mid_line) && !ok_j1 {
+                        fails.push((format!("text-truncated-header-line-accepted-{hfmt}"), format!("cut {k}: the stream ends at {n} inside header line {j} (header text {hdr} bytes): a header parsed from the partial line is returned without error")));
+                    }
+                }
+            }
+        }
+    }
+    Obs { obs: toks.join(" "), verdict: "ok".into(), nontrivial: some_items && some_err && some_hdr_cut }.with_verdict(first_fail(fails))
+}
+
+// ---------------------------------------------------------------------------------------------
+// modelled: the blocks and slices inside a CRAM container whose body is cut
+
+/// the data containers of a CRAM file written by noodles: (offset of the container header, length
+/// of the header, length of the body, landmarks)
+fn cram_data_containers(file: &[u8]) -> Vec<(usize, usize, usize, Vec<usize>)> {
+    let mut v = Vec::new();
+    let mut r = cram::io::Reader::new(std::io::Cursor::new(file));
+    if r.read_file_definition().is_err() || r.read_file_header().is_err() {
+        return v;
+    }
+    loop {
+        let Ok(p0) = r.position() else { break };
+        let mut c = cram::io::reader::Container::default();
+        match r.read_container(&mut c) {
+            Ok(0) | Err(_) => break,
+            Ok(n) => {
+                let Ok(p1) = r.position() else { break };
+                let hl = p1 as usize - p0 as usize - n;
+                v.push((p0 as usize, hl, n, c.header().landmarks().to_vec()));
+            }
+        }
+    }
+    v
+}
+
+fn crc32_of(bs: &[u8]) -> u32 {
+    let mut c = flate2::Crc::new();
+    c.update(bs);
+    c.sum()
+}
+
+/// what the block-level readers report on a container whose body holds only the first j bytes:
+/// the container header is rewritten with length j (and its CRC32 recomputed) so that
+/// read_container hands exactly body[..j] to compression_header / slices / decode_blocks
+fn read_cut_container(prefix: &[u8], header: &[u8], body: &[u8], j: usize) -> String {
+    let hl = header.len();
+    let mut h = header.to_vec();
+    h[..4].copy_from_slice(&(j as i32).to_le_bytes());
+    let crc = crc32_of(&h[..hl - 4]);
+    h[hl - 4..].copy_from_slice(&crc.to_le_bytes());
+    let mut stream = prefix.to_vec();
+    stream.extend_from_slice(&h);
+    stream.extend_from_slice(&body[..j]);
+    let r = nv::guarded(AssertUnwindSafe(|| -> std::io::Result<String> {
+        let mut r = cram::io::Reader::new(&stream[..]);
+        r.read_header()?;
+        let mut c = cram::io::reader::Container::default();
+        let n = r.read_container(&mut c)?;
+        if n != j {
+            return Ok(format!("L{n}"));
+        }
+        let ch = match c.compression_header() {
+            Ok(_) => "ok".to_string(),
+            Err(e) => format!("Err:{}", nv::errkind(&e)),
+        };
+        let mut ns = Vec::new();
+        let mut stop = "Eof".to_string();
+        for res in c.slices() {
+            let ext = res.and_then(|slice| slice.decode_blocks().map(|(_, ext)| ext.len()));
+            match ext {
+                Ok(n) => ns.push(n.to_string()),
+                Err(e) => {
+                    stop = format!("Err:{}", nv::errkind(&e));
+                    break;
+                }
+            }
+        }
+        Ok(format!("{ch}/{}/{stop}", if ns.is_empty() { "_".to_string() } else { ns.join("+") }))
+    }));
+    match r {
+        Outcome::Done(Ok(s)) => s,
+        Outcome::Done(Err(e)) => format!("R:Err:{}", nv::errkind(&e)),
+        Outcome::Panicked(_) => "Panic".to_string(),
+    }
+}
+
+/// kind cramb prefix header body landmarks cuts: one data container of a CRAM file noodles wrote
+/// (prefix = file definition + header container), its body cut to j bytes for every j in cuts.
+/// obs per cut: "<compression header ok|Err:k>/<external block counts of the slices decoded>/<Eof|Err:k>".
+/// Oracle: every cut j < |body| must end in an error (never a panic, never a clean end), the
+/// slices decoded before it are those wholly inside the cut, and the whole body decodes cleanly.
+fn run_cramb(c: &Case) -> Obs {
+    let prefix = c.b(0);
+    let header = c.b(1);
+    let body = c.b(2);
+    let lms: Vec<usize> = if c.args[3] == "_" { Vec::new() } else { c.args[3].split(',').map(|x| x.parse().unwrap()).collect() };
+    let cuts = parse_cuts(&c.args[4], body.len());
+    let mut toks = Vec::new();
+    let mut fails = Vec::new();
+    let mut n_err = 0;
+    for &j in &cuts {
+        if j == 0 {
+            continue;
+        }
+        let t = read_cut_container(&prefix, &header, &body, j);
+        if t == "Panic" {
+            fails.push(("panic-cram".to_string(), format!("container body cut to {j} of {}", body.len())));
+        } else if t.starts_with('R') || t.starts_with('L') {
+            fails.push(("cram-cut-container-not-delivered".to_string(), format!("body cut to {j}: {t}")));
+        } else {
+            let parts: Vec<&str> = t.split('/').collect();
+            let nsl = if parts[1] == "_" { 0 } else { parts[1].split('+').count() };
+            let whole = (0..lms.len()).filter(|&i| lms.get(i + 1).copied().unwrap_or(body.len()) <= j && (i + 1 < lms.len() || j == body.len())).count();
+            if j < body.len() {
+                n_err += (parts[2] != "Eof") as usize;
+                if parts[2] == "Eof" && parts[0] == "ok" {
+                    fails.push(("cram-cut-container-body-clean-end".to_string(), format!("body cut to {j} of {}: {t}", body.len())));
+                } else if nsl != whole {
+                    fails.push(("cram-cut-container-body-slices".to_string(), format!("body cut to {j}: {nsl} slices decoded, {whole} lie inside the cut")));
+                }
+            } else if !(parts[0] == "ok" && parts[2] == "Eof" && nsl == lms.len()) {
+                fails.push(("cram-intact-file-unreadable".to_string(), format!("whole container: {t}")));
+            }
+        }
+        toks.push(t);
+    }
+    Obs { obs: toks.join(" "), verdict: "ok".into(), nontrivial: n_err > 8 }.with_verdict(first_fail(fails))
+}
+
+// ---------------------------------------------------------------------------------------------
 // implementation-only oracle over generated files of every format
 
 /// offsets at which a field group of a well-formed BAI starts
@@ -1757,6 +2269,9 @@ fn run(c: &Case) -> Obs {
         "tbiz" => run_idxz("tbi", c),
         "file" => run_file(c),
         "hdrcut" => run_hdrcut(c),
+        "bamhf" | "bcfhf" | "bamhz" | "bcfhz" => run_hfile(c),
+        "samth" | "vcfth" | "samthz" | "vcfthz" => run_thfile(c),
+        "cramb" => run_cramb(c),
         _ => Obs { obs: "-".into(), verdict: "skip".into(), nontrivial: false },
     }
 }
@@ -1955,6 +2470,122 @@ fn generate(rng: &mut Rng, tier: &str, w: &mut CaseWriter) {
         w.push("fai", vec![hex(&text), "all".into()]);
         let text = index::gunzip(&files::crai_file(rng));
         w.push("crai", vec![hex(&text), "all".into()]);
+    }
+
+    // --- modelled: whole BAM / BCF files incl. their header (raw and BGZF with block breaks at
+    // arbitrary offsets, also inside the header), every cut
+    for i in 0..(6 * scale) {
+        for is_bam in [true, false] {
+            let n = if i == 0 { 0 } else { rng.range(1, 8) };
+            let (raw, hdr, ltab) = if is_bam {
+                let um = rng.chance(1, 4);
+                let text = files::sam_text(rng, n, um, false);
+                let (raw, hdr, _) = files::bam_raw(&text);
+                (raw, hdr, None)
+            } else {
+                let text = files::vcf_text(rng, n, false);
+                let (raw, hdr, _) = files::bcf_raw(&text);
+                // header text = l_text bytes behind magic, version, l_text, without the NUL
+                let t = bcf_header_line_table(&raw[9..hdr - 1]);
+                (raw, hdr, Some(t))
+            };
+            let cuts = if raw.len() <= 4096 { "all".to_string() } else { fmt_cuts(&choose_cuts(rng, raw.len(), &[hdr], 300)) };
+            let mut breaks = files::random_breaks(rng, raw.len(), 4);
+            if rng.chance(2, 3) {
+                breaks.push(rng.range(1, hdr as u64 - 1) as usize);
+                breaks.sort_unstable();
+            }
+            let file = files::bgzip(&raw, &breaks, rng.chance(3, 4));
+            let zcuts = if file.len() <= 4096 { "all".to_string() } else { fmt_cuts(&choose_cuts(rng, file.len(), &files::bgzf_boundaries(&file), 200)) };
+            match ltab {
+                None => {
+                    w.push("bamhf", vec![hex(&raw), cuts, hdr.to_string()]);
+                    w.push("bamhz", vec![hex(&file), inflate_table(&file), zcuts, hdr.to_string()]);
+                }
+                Some((tab, nl)) => {
+                    w.push("bcfhf", vec![hex(&raw), tab.clone(), nl.to_string(), cuts, hdr.to_string()]);
+                    w.push("bcfhz", vec![hex(&file), inflate_table(&file), tab, nl.to_string(), zcuts, hdr.to_string()]);
+                }
+            }
+        }
+    }
+
+    // --- modelled: plain and bgzipped SAM / VCF text incl. the header, every cut
+    for i in 0..(4 * scale) {
+        for vcf_fmt in [true, false] {
+            let n = if i == 0 { 0 } else { rng.range(1, 4) };
+            let text = if vcf_fmt { files::vcf_text(rng, n, false) } else { files::sam_text(rng, n, false, false) };
+            let mut hdr = 0;
+            while hdr < text.len() && text[hdr] == if vcf_fmt { b'#' } else { b'@' } {
+                hdr += text[hdr..].iter().position(|&b| b == b'\n').unwrap() + 1;
+            }
+            let cuts = if text.len() <= 4096 { "all".to_string() } else { fmt_cuts(&choose_cuts(rng, text.len(), &[hdr], 300)) };
+            let rejected = text_rejected_for(vcf_fmt, &text, hdr, &record_line_prefixes(&text, hdr));
+            let mut breaks = files::random_breaks(rng, text.len(), 4);
+            if rng.chance(2, 3) {
+                breaks.push(rng.range(1, hdr as u64 - 1) as usize);
+                breaks.sort_unstable();
+            }
+            let file = files::bgzip(&text, &breaks, rng.chance(3, 4));
+            let zc: Vec<usize> = if file.len() <= 4096 { (0..=file.len()).collect() } else { choose_cuts(rng, file.len(), &files::bgzf_boundaries(&file), 200) };
+            let zrejected = text_rejected_for(vcf_fmt, &text, hdr, &record_line_partials_z(&file, &text, hdr, &zc));
+            if vcf_fmt {
+                let (tab, nl) = vcf_header_line_table(&text[..hdr]);
+                w.push("vcfth", vec![hex(&text), tab.clone(), nl.to_string(), rejected, cuts, hdr.to_string()]);
+                w.push("vcfthz", vec![hex(&file), inflate_table(&file), tab, nl.to_string(), zrejected, fmt_cuts(&zc), hdr.to_string()]);
+            } else {
+                w.push("samth", vec![hex(&text), rejected, cuts, hdr.to_string()]);
+                w.push("samthz", vec![hex(&file), inflate_table(&file), zrejected, fmt_cuts(&zc), hdr.to_string()]);
+            }
+        }
+    }
+
+    // --- modelled: the blocks / slices inside a data container whose body is cut (1..n slices per
+    // container via verif_set_records_per_slice)
+    for i in 0..(4 * scale) {
+        let (p, q) = match i % 4 {
+            0 => (1, 0),
+            1 => (rng.range(2, 9), rng.range(1, 3)),
+            2 => (rng.range(3, 12), rng.range(1, 4)),
+            _ => (rng.range(4, 20), rng.range(1, 2)),
+        };
+        let text = files::sam_text(rng, p, true, false);
+        let file = files::cram_file(&text, q as usize);
+        let cs = cram_data_containers(&file);
+        if cs.is_empty() {
+            continue;
+        }
+        let (p0, hl, n, lms) = cs[rng.below(cs.len() as u64) as usize].clone();
+        let first = cs[0].0;
+        let body = &file[p0 + hl..p0 + hl + n];
+        let cuts = if n <= 3000 { "all".to_string() } else { fmt_cuts(&choose_cuts(rng, n, &lms, 300)) };
+        let lm = if lms.is_empty() { "_".to_string() } else { lms.iter().map(|x| x.to_string()).collect::<Vec<_>>().join(",") };
+        w.push("cramb", vec![hex(&file[..first]), hex(&file[p0..p0 + hl]), hex(body), lm, cuts]);
+        // a hand-made container with TWO slices (noodles' writer puts one slice in a container):
+        // the body of container A followed by the slice of container B, the landmark array of A's
+        // header rewritten to [lm0, |body A|] (read_cut_container sets the length and the CRC)
+        if cs.len() >= 2 && cs[0].3.len() == 1 && cs[1].3.len() == 1 {
+            let (a0, ahl, an, almk) = cs[0].clone();
+            let (b0, bhl, bn, blmk) = cs[1].clone();
+            let mut itf = |v: usize| {
+                let mut t = Vec::new();
+                cram::verif::write_itf8(&mut t, v as i32).unwrap();
+                t
+            };
+            let old_arr = [itf(1), itf(almk[0])].concat();
+            let head = &file[a0..a0 + ahl];
+            if head[..ahl - 4].ends_with(&old_arr) {
+                let mut h2 = head[..ahl - 4 - old_arr.len()].to_vec();
+                h2.extend(itf(2));
+                h2.extend(itf(almk[0]));
+                h2.extend(itf(an));
+                h2.extend([0u8; 4]);
+                let mut body2 = file[a0 + ahl..a0 + ahl + an].to_vec();
+                body2.extend_from_slice(&file[b0 + bhl + blmk[0]..b0 + bhl + bn]);
+                let cuts = if body2.len() <= 3000 { "all".to_string() } else { fmt_cuts(&choose_cuts(rng, body2.len(), &[almk[0], an], 300)) };
+                w.push("cramb", vec![hex(&file[..first]), hex(&h2), hex(&body2), format!("{},{}", almk[0], an), cuts]);
+            }
+        }
     }
 
     // --- implementation-only: every cut inside the header of a raw BAM / BCF stream
